@@ -65,7 +65,11 @@ day in an isolated copy. 96 were reported again; C03b stays benign (the genuine 
 exploited); C13c turned out to be caught only by chance (1 of 3 check seeds: the right thread object had to be recycled in a
 random program) and got the directed program `staleintr`; C20b passed once in the loaded lab and is caught on `/repo`
 (`detect-C20.log`); five round-1 patches needed a 3-way apply that the first version of the script lacked and were re-run
-(`regress.log` in each seed directory).
+(`regress.log` in each seed directory). A last regression of the round-6 seeds against the final machinery (after eight more follow-ups had been merged)
+found two detections that depended on chance - C01f (object recycling; also a run that ended in pika's abort handling with no
+verdict for half an hour: the scheduler harness has a `std::terminate` handler now and a directed program `stale`) and C20f
+(a data race between two pollers, 2 of 3 attempts: six `crowd` runs added) - and one patch (C03e) that no longer applied to
+the file that had received hook lines in the meantime (`patch-ported.diff`).
 
 Generated by `tools/seed_table.py` from `seeded/*/meta.json`.
 
